@@ -174,9 +174,21 @@ func judgeSide(c Case, side int, b []byte) (map[string]int, []Job, []lib.Bytes, 
 			}
 		}
 		g["svg.path"] = bad
+		// embedded style sheets and style attributes: number of parts the CSS tokenizer rejects
+		sheets, decls, _ := judge.SVGStyles(b)
+		nb := 0
+		for _, sh := range sheets {
+			r := judge.CSSCheck(sh)
+			nb += b2i(r.BadString+r.BadURL+r.Closers+r.Open+r.OpenStr > 0)
+		}
+		for _, d := range decls {
+			r := judge.CSSCheck(d)
+			nb += b2i(r.BadString+r.BadURL+r.Closers+r.OpenStr > 0)
+		}
+		g["svg.css"] = nb
 	case "css":
 		r := judge.CSSCheck(b)
-		g["css"] = b2i(r.BadString+r.BadURL+r.Closers+r.Open > 0)
+		g["css"] = b2i(r.BadString+r.BadURL+r.Closers+r.Open+r.OpenStr > 0)
 	case "js":
 		if c.Inline {
 			jobs = append(jobs, Job{c.ID, side, "function", string(b)})
@@ -200,7 +212,7 @@ func judgeSide(c Case, side int, b []byte) (map[string]int, []Job, []lib.Bytes, 
 			case "style", "styleattr":
 				// one judgement per part: the count of rejected parts is what must not grow
 				r := judge.CSSCheck(p.Text)
-				n := r.BadString + r.BadURL + r.Closers
+				n := r.BadString + r.BadURL + r.Closers + r.OpenStr
 				if p.Kind == "style" {
 					n += r.Open
 				}
@@ -246,6 +258,7 @@ func runCase(c Case, outdir string) (Event, []Job) {
 	if c.Lang == "svg" && g0["svg.xml"] != 0 {
 		// the input is not well-formed XML: its path data cannot be enumerated, so the path goal has no "valid input" side
 		delete(g0, "svg.path")
+		delete(g0, "svg.css")
 		p0, v0, p1, v1 = nil, nil, nil, nil
 	}
 	var names []string
